@@ -63,8 +63,13 @@ impl Reorg {
 
     let mut wtx = index.begin_write()?;
 
-    let oldest_savepoint =
-      wtx.get_persistent_savepoint(wtx.list_persistent_savepoints()?.min().unwrap())?;
+    // An index that stopped before it was close enough to the chain tip to take
+    // its first savepoint has nothing to roll back to.
+    let Some(oldest_savepoint) = wtx.list_persistent_savepoints()?.min() else {
+      return Err(anyhow!(reorg::Error::Unrecoverable));
+    };
+
+    let oldest_savepoint = wtx.get_persistent_savepoint(oldest_savepoint)?;
 
     wtx.restore_savepoint(&oldest_savepoint)?;
 
